@@ -221,6 +221,13 @@ func (o *WireOracles) onSend(rec *DgramRec, data []byte) {
 						// RFC 9001 6.1/6.2: only after handshake confirmation and after an ACK for a packet of the current phase
 						// (a client may also treat an acknowledged 1-RTT packet as confirmation, RFC 9001 4.1.2)
 						confirmed := (d == 1 && a.hsDoneSent) || (d == 0 && (a.hsDoneDeliv || p.Conn.ackedTo[0][2] >= a.firstGenPN[0][0]))
+						for i := range p.Frames {
+							// (the server's handshake is confirmed when it is complete: the packet that carries HANDSHAKE_DONE
+							// itself may already be protected with the next keys)
+							if d == 1 && p.Frames[i].Name == "HANDSHAKE_DONE" {
+								confirmed = true
+							}
+						}
 						// (a path probe may overtake the queued packet that carries HANDSHAKE_DONE, see above)
 						if !confirmed && a.probePN[d][p.PN] {
 							o.res.Probe("path-probe-overtook-queued-packets")
